@@ -15,6 +15,7 @@ CHECKS = {
     "C13": listen_checks.check_C13,
     "C14": listen_checks.check_C14,
     "C15": listen_checks.check_C15,
+    "C20": client_checks.check_C20,
 }
 
 
